@@ -200,15 +200,15 @@ func shrinkPlan(p *Plan, clause string) *Plan {
 }
 
 type replayFile struct {
-	Property      string  `json:"property"`
-	Clause        string  `json:"clause"`
-	Message       string  `json:"message"`
-	Deterministic bool    `json:"deterministic"`
-	Seed          uint64  `json:"seed"`
-	Run           uint64  `json:"run"`
-	Plan          *Plan   `json:"plan"`
-	Note          string  `json:"note,omitempty"`
-	ReplayCmd     string  `json:"replay_cmd"`
+	Property      string `json:"property"`
+	Clause        string `json:"clause"`
+	Message       string `json:"message"`
+	Deterministic bool   `json:"deterministic"`
+	Seed          uint64 `json:"seed"`
+	Run           uint64 `json:"run"`
+	Plan          *Plan  `json:"plan"`
+	Note          string `json:"note,omitempty"`
+	ReplayCmd     string `json:"replay_cmd"`
 }
 
 func TestReplay(t *testing.T) {
